@@ -246,6 +246,25 @@ UpdateGuard(R) ==
         (R.post.lease[l].p = R.act.p /\ R.post.lease[l].state = "active")
         => Covers(R.post.prov[R.act.p].attrs, R.post.grp[R.post.lease[l].gid].req)
 
+\* what "signed by an auditor" / "the provider's attributes" mean: the attestation and provider records are exactly what
+\* the last accepted sign / revoke / create / update transactions said (a revoked signature must not keep counting)
+AttributeRecordsFollowTransactions(R) ==
+  LET a == R.act  post == R.post IN
+  R.ok =>
+    CASE a.act = "SignAttributes" ->
+           LET k == AttId(a.a, a.p) IN
+           /\ Has(post.attest, k)
+           /\ \A x \in DOMAIN a.attrs : x \in DOMAIN post.attest[k] /\ post.attest[k][x] = a.attrs[x]
+           /\ \A x \in DOMAIN post.attest[k] : x \in DOMAIN a.attrs \/ (Has(R.pre.attest, k) /\ x \in DOMAIN R.pre.attest[k]
+                                                                          /\ post.attest[k][x] = R.pre.attest[k][x])
+      [] a.act = "DeleteAttributes" ->
+           LET k == AttId(a.a, a.p) IN
+           IF a.keys = {} THEN ~Has(post.attest, k)
+           ELSE /\ \A x \in a.keys : ~(Has(post.attest, k) /\ x \in DOMAIN post.attest[k])
+                /\ Has(post.attest, k) => \A x \in DOMAIN post.attest[k] : x \in DOMAIN R.pre.attest[k] /\ post.attest[k][x] = R.pre.attest[k][x]
+      [] a.act \in {"CreateProvider", "UpdateProvider"} -> Has(post.prov, a.p) /\ post.prov[a.p].attrs = a.attrs
+      [] OTHER -> TRUE
+
 -----------------------------------------------------------------------------
 (* C16  every lifecycle change observable as exactly the corresponding event (trace only) *)
 Ended(f, g, k, terminal) == Has(f, k) /\ Has(g, k) /\ f[k].state \notin terminal /\ g[k].state \in terminal
@@ -261,13 +280,16 @@ ExpectedEvents(pre, post) ==
   \cup {<<"lease-closed", l>> : l \in {x \in DOMAIN post.lease : Ended(pre.lease, post.lease, x, {"closed", "insufficient_funds"})}}
   \cup {<<"deployment-created", d>> : d \in Created(pre.dep, post.dep)}
   \cup {<<"deployment-closed", d>> : d \in {x \in DOMAIN post.dep : Ended(pre.dep, post.dep, x, {"closed"})}}
-  \cup {<<"group-closed", g>> : g \in {x \in DOMAIN post.grp : Ended(pre.grp, post.grp, x, {"closed", "insufficient_funds"})}}
+  \cup {<<"group-closed", g>> : g \in {x \in DOMAIN post.grp : Has(pre.grp, x) /\ pre.grp[x].state # post.grp[x].state
+                                                                /\ post.grp[x].state \in {"closed", "insufficient_funds"}}}
   \cup {<<"group-paused", g>> : g \in {x \in DOMAIN post.grp : Ended(pre.grp, post.grp, x, {"paused"})}}
   \cup {<<"group-started", g>> : g \in {x \in DOMAIN post.grp : Has(pre.grp, x) /\ pre.grp[x].state # "open" /\ post.grp[x].state = "open"}}
   \cup {<<"provider-created", p>> : p \in Created(pre.prov, post.prov)}
   \cup {<<"provider-updated", p>> : p \in {x \in DOMAIN pre.prov : Has(post.prov, x) /\ post.prov[x] # pre.prov[x]}}
-  \cup {<<"attestation-set", k>> : k \in {x \in DOMAIN post.attest : ~Has(pre.attest, x) \/ pre.attest[x] # post.attest[x]}}
-  \cup {<<"attestation-deleted", k>> : k \in {x \in DOMAIN pre.attest : ~Has(post.attest, x)}}
+
+\* an attestation created, changed or removed: observable as a trusted-auditor event (created or deleted) for that pair
+AttestationChanged(pre, post) ==
+  {x \in (DOMAIN post.attest) \cup (DOMAIN pre.attest) : ~(Has(pre.attest, x) /\ Has(post.attest, x) /\ pre.attest[x] = post.attest[x])}
 
 StrictTypes == {"order-created", "order-closed", "bid-created", "bid-closed", "lease-created", "lease-closed",
                 "deployment-created", "deployment-closed", "group-closed", "group-paused", "group-started",
@@ -283,6 +305,7 @@ EventsMatchDiff(R) ==
         \/ /\ evs[i].type = "group-paused" /\ Count(evs, "group-paused", evs[i].id) = 1
            /\ Has(R.pre.grp, evs[i].id) /\ R.pre.grp[evs[i].id].state \notin {"paused", "closed", "insufficient_funds"}
            /\ R.post.grp[evs[i].id].state \in {"closed", "insufficient_funds"}
+  /\ \A k \in AttestationChanged(R.pre, R.post) : Count(evs, "attestation-set", k) + Count(evs, "attestation-deleted", k) >= 1
   /\ \A d \in DOMAIN R.post.dep : (Has(R.pre.dep, d) /\ R.pre.dep[d].version # R.post.dep[d].version)
                                    => Count(evs, "deployment-updated", d) >= 1
   /\ \A i \in DOMAIN evs :
@@ -304,5 +327,5 @@ Step_C01(R) == CoinsMoveOnlyViaEscrow(R)
 Step_C02(R) == StepNoOvercharge(R) /\ NeverTransfersMoreThanDeposited(R) /\ OverdraftDistribution(R)
 Step_C03(R) == ClosedNeverChanges(R) /\ CloseTakesEffect(R)
 Step_C06(R) == FrameOK(R)
-Step_C08(R) == BidAdmission(R) /\ UpdateGuard(R)
+Step_C08(R) == BidAdmission(R) /\ UpdateGuard(R) /\ AttributeRecordsFollowTransactions(R)
 =============================================================================
